@@ -1678,10 +1678,31 @@ impl<'a> Hist<'a> {
         let id0 = self.chans[ci].id0.clone();
         let dbid = self.chans[ci].dbid;
         let state = self.is_ready_in_node(&id0);
+        // one forget in six meets a store that is unavailable for its first write (the node state with the id
+        // high-water mark): the daemon dies or the request fails; either way the node then asks again
+        let inject = self.rng.chance(1, 6);
+        if inject {
+            self.world.store.arm_faults(0, 1);
+        }
         let node = self.world.node.clone();
         let i2 = id0.clone();
-        let res = report::catch(move || node.forget_channel(&i2));
+        let mut res = report::catch(move || node.forget_channel(&i2));
+        let fired = if inject { self.world.store.disarm_faults() } else { 0 };
         self.r.eval(1);
+        if fired > 0 && !matches!(res, Ok(Ok(()))) {
+            self.r.count(if res.is_err() { "op.forget.storage_failure.daemon_died" } else { "op.forget.storage_failure.request_failed" });
+            self.log(json!(["forget_channel met a storage failure", dbid, format!("{:?}", res).chars().take(80).collect::<String>()]));
+            if res.is_err() {
+                self.restart();
+                if self.dead() {
+                    return;
+                }
+            }
+            let node = self.world.node.clone();
+            let i2 = id0.clone();
+            res = report::catch(move || node.forget_channel(&i2));
+            self.r.count("op.forget.retried_after_storage_failure");
+        }
         match res {
             Ok(Ok(())) => {
                 let what = match state {
